@@ -35,8 +35,11 @@ RULE = ('cli.filter: random filter expression trees (depth <= 4, attributes incl
         'attribute; token-level edits (delete / duplicate / swap / stray and unbalanced tokens); character '
         'soup for the lexer. cli.prune: generated 2-4 namespace specs through stone.cli.main with a capturing '
         'backend over all subsets of namespaces for -w and -b and all subsets of attributes for -a (plus '
-        ':all and unknown names), with and without -f. A case is non-trivial when the expression has a '
-        'connective / the option set changes what the backend sees.')
+        ':all and unknown names, a name given twice), with and without -f (also empty parentheses); every run draws HOW the '
+        'command line says it: short / long / `--opt=value` option spellings, options before or after the '
+        'positionals, the spec as files, on stdin (with and without `-`) or as a nested folder with --recursive, -v, '
+        'and arguments for the backend behind a `--` that look like selection options. A case is non-trivial when '
+        'the expression has a connective / the option set changes what the backend sees.')
 
 KEYWORD_LIKE = {'and', 'or', 'true', 'false', 'null'}
 ID_POOL = ['a', 'b', 'c', 'host', 'hide', 'n', 'level', 'flag', 'opt', 'android', 'order', 'nullable', 'true_',
@@ -1256,22 +1259,86 @@ class PruneEnv:
         # python-valued attrs of the unpruned routes, for the reference
         self.attrs0 = {ns.name: [dict(r.attrs) for r in ns.routes] for ns in self.api0.namespaces.values()}
 
+    LONG = {'w': '--whitelist-namespace-routes', 'b': '--blacklist-namespace-routes', 'a': '--attribute',
+            'f': '--filter-by-route-attr'}
+
+    def recursive_dir(self):
+        """the same spec files spread over nested folders (with files that are not specs in between), for
+        `--recursive`"""
+        d = os.path.join(self.root, 'rec')
+        if not os.path.isdir(d):
+            subs = ['', 'a', os.path.join('a', 'b'), 'c', os.path.join('a', 'b', 'deep')]
+            for i, (fn, text) in enumerate(self.files.items()):
+                sub = os.path.join(d, subs[i % len(subs)])
+                os.makedirs(sub, exist_ok=True)
+                with open(os.path.join(sub, fn), 'w', encoding='utf-8') as fh:
+                    fh.write(text)
+            for decoy in ('notes.txt', os.path.join('a', 'old.stone.bak'), os.path.join('c', 'stone'),
+                          os.path.join('a', 'b', 'x.stone.txt')):
+                os.makedirs(os.path.dirname(os.path.join(d, decoy)), exist_ok=True)
+                with open(os.path.join(d, decoy), 'w', encoding='utf-8') as fh:
+                    fh.write('namespace decoy\n\nroute not_a_spec (Void, Void, Void)\n')
+        return d
+
+    def argv_for(self, opts):
+        """The command line of one run. Besides the options of the property (w, b, a, f) `opts` may say HOW they are
+        given: `style` (short | long | long= | mixed), `opts_first` (options before the positionals),
+        `via` (files | stdin | stdin- | recursive: how the spec reaches main), `verbose` (number of -v),
+        `backend_args` (what follows a `--`: addressed to the backend, never to stone itself)."""
+        style = opts.get('style') or 'short'
+        count = [0]
+
+        def opt(key, value):
+            count[0] += 1
+            st = style
+            if st == 'mixed':
+                st = ['short', 'long', 'long='][count[0] % 3]
+            if st == 'long':
+                return [self.LONG[key], value]
+            if st == 'long=':
+                return ['%s=%s' % (self.LONG[key], value)]
+            return ['-' + key, value]
+        options = []
+        for n in opts.get('w', []):
+            options += opt('w', n)
+        for n in opts.get('b', []):
+            options += opt('b', n)
+        if opts.get('f') is not None:
+            options += opt('f', opts['f'])
+        for n in opts.get('a', []):
+            options += opt('a', n)
+        options += ['-v'] * int(opts.get('verbose') or 0)
+        via = opts.get('via') or 'files'
+        if via == 'recursive':
+            spec_args = [self.recursive_dir(), '--recursive']
+        elif via == 'stdin':
+            spec_args = []
+        elif via == 'stdin-':
+            spec_args = ['-']
+        else:
+            spec_args = list(self.paths)
+        positionals = [self.backend, self.out] + spec_args
+        argv = ['stone-verif'] + (options + positionals if opts.get('opts_first') else positionals + options)
+        if opts.get('backend_args') is not None:
+            argv += ['--'] + list(opts['backend_args'])
+        return argv
+
     def run_main(self, opts):
         """stone.cli.main in-process. Returns ('ok', api) | ('exit', code, stderr)"""
         from stone import cli
-        argv = ['stone-verif', self.backend, self.out] + self.paths
-        for n in opts.get('w', []):
-            argv += ['-w', n]
-        for n in opts.get('b', []):
-            argv += ['-b', n]
-        if opts.get('f') is not None:
-            argv += ['-f', opts['f']]
-        for n in opts.get('a', []):
-            argv += ['-a', n]
+        argv = self.argv_for(opts)
         old = sys.argv
+        old_stdin = sys.stdin
         sys.argv = argv
         err = io.StringIO()
         out = io.StringIO()
+        if (opts.get('via') or '').startswith('stdin'):
+            # every file starts with its `namespace` line: main splits the stream there
+            text = ''.join(open(p, encoding='utf-8').read() for p in self.paths)
+            sys.stdin = io.TextIOWrapper(io.BytesIO(text.encode('utf-8')), encoding='utf-8')
+        mod = sys.modules.get('capture_stoneg_py')
+        if mod is not None:
+            del mod.CAPTURED[:]
         try:
             with contextlib.redirect_stderr(err), contextlib.redirect_stdout(out):
                 cli.main()
@@ -1281,6 +1348,7 @@ class PruneEnv:
             return ('exit', 'exception:%s' % type(e).__name__, '%s\n%s' % (err.getvalue(), e))
         finally:
             sys.argv = old
+            sys.stdin = old_stdin
         mod = sys.modules.get('capture_stoneg_py')
         if mod is None or not mod.CAPTURED:
             return ('exit', 'no-capture', err.getvalue())
@@ -1569,12 +1637,51 @@ def plan_runs(rng, env, ns_names, fields):
         runs.append({'plan': 'f-edited', 'w': [], 'b': [], 'a': companion_a(), 'f': txt, 'ftree': t2, 'fwell': well})
         break
     runs.append({'plan': 'f-empty', 'w': [], 'b': [], 'a': [], 'f': '', 'ftree': None, 'fwell': True})
+    runs.append({'plan': 'f-blank', 'w': [], 'b': [], 'a': companion_a(), 'f': rng.choice(['()', '( )', '(())']),
+                 'ftree': None, 'fwell': False})
     runs.append({'plan': 'none', 'w': [], 'b': [], 'a': [], 'f': None, 'ftree': None, 'fwell': True})
+    # HOW the command line says it (never WHAT it selects): option spelling and position, the way the spec reaches
+    # main, verbosity, arguments addressed to the backend behind a `--`, a name given twice
+    for run in runs:
+        r = rng.random()
+        run['via'] = 'files' if r < 0.64 else ('stdin' if r < 0.74 else ('stdin-' if r < 0.82 else 'recursive'))
+        run['style'] = rng.choice(['short', 'short', 'short', 'long', 'long=', 'mixed'])
+        run['opts_first'] = rng.random() < 0.25
+        run['verbose'] = 1 if rng.random() < 0.1 else 0
+        other_ns = rng.choice(ns_names)
+        run['backend_args'] = rng.choice([None, None, None, None, [], ['x'], ['-w', other_ns], ['-b', other_ns],
+                                          ['-a', rng.choice(schema)], ['-f', 'nope((', '-a', ':all'],
+                                          ['--attribute', 'bogus', '-w', 'nope']])
+        if rng.random() < 0.12:
+            key = rng.choice(['w', 'b', 'a'])
+            if run[key]:
+                run[key] = list(run[key])
+                run[key].insert(rng.randint(0, len(run[key])), rng.choice(run[key]))
+                run['plan'] += '+dup'
     return runs
 
 
+HOW_KEYS = ('via', 'style', 'opts_first', 'verbose', 'backend_args')
+HOW_PLAIN = {'via': 'files', 'style': 'short', 'opts_first': False, 'verbose': 0, 'backend_args': None}
+
+
 def opts_of(run):
-    return {'w': run['w'], 'b': run['b'], 'a': run['a'], 'f': run['f']}
+    o = {'w': run['w'], 'b': run['b'], 'a': run['a'], 'f': run['f']}
+    for k in HOW_KEYS:
+        if k in run and run[k] != HOW_PLAIN[k]:
+            o[k] = run[k]
+    return o
+
+
+def model_opts(opts):
+    """what the model is asked: the selection itself (its command line has one spelling)"""
+    return {k: opts.get(k, [] if k != 'f' else None) for k in ('w', 'b', 'a', 'f')}
+
+
+def by_name(canon):
+    """namespaces in name order: `--recursive` hands the files over in path order, which is not the order of the
+    reference run"""
+    return dict(canon, namespaces=sorted(canon['namespaces'], key=lambda ns: ns['name']))
 
 
 def canon_model_api(j):
@@ -1588,6 +1695,12 @@ def shrink_opts(env, run, sig):
     def still(r):
         res = env.run_main(opts_of(r))
         return any(s == sig for _w, s, _d in judge_prune(env, opts_of(r), r['ftree'], r['fwell'], res))
+    for key in HOW_KEYS:
+        if cur.get(key, HOW_PLAIN[key]) != HOW_PLAIN[key]:
+            cand = dict(cur)
+            cand[key] = HOW_PLAIN[key]
+            if still(cand):
+                cur = cand
     for key in ('f', 'w', 'b', 'a'):
         if key == 'f':
             if cur['f'] is not None:
@@ -1656,8 +1769,10 @@ def suite_prune(ck):
             result = env.run_main(opts)
             ck.stat('cli.prune.runs')
             ck.hist('cli.prune.plan', run['plan'])
-            real = ({'api': canon_api(snapshot(result[1]))} if result[0] == 'ok' else {'error': True})
-            changed = result[0] != 'ok' or real['api'] != canon_api(env.snap0)
+            real = ({'api': by_name(canon_api(snapshot(result[1])))} if result[0] == 'ok' else {'error': True})
+            changed = result[0] != 'ok' or real['api'] != by_name(canon_api(env.snap0))
+            for k in HOW_KEYS:
+                ck.hist('cli.prune.how.%s' % k, json.dumps(run[k]) if k == 'backend_args' else run[k])
             ck.case(('prune', si, json.dumps(opts, sort_keys=True)), nontrivial=changed)
             ck.hist('cli.prune.outcome', 'api' if result[0] == 'ok' else 'exit-%s' % result[1])
             problems = judge_prune(env, opts, run['ftree'], run['fwell'], result)
@@ -1678,7 +1793,7 @@ def suite_prune(ck):
                         'filter_wellformed': small['fwell'],
                         'filter_tree': tree_json(small['ftree']) if small['ftree'] else None}
                 ck.failing_input(what, sig, case)
-            reqs.append({'op': 'cli.prune', 'api': env.snap0, 'opts': opts})
+            reqs.append({'op': 'cli.prune', 'api': env.snap0, 'opts': model_opts(opts)})
             pending.append((si, opts, real, result))
             if len(ck.samples) < 6 and run['plan'] in ('w-subset', 'a-subset') and result[0] == 'ok' and changed:
                 ck.sample({'opts': opts, 'routes_seen': {ns['name']: [r['name'] + ':' + r['version'] for r in ns['routes']]
@@ -1687,7 +1802,7 @@ def suite_prune(ck):
     rep = drive(ck, reqs)
     for (si, opts, real, result), m in zip(pending, rep):
         if 'api' in m:
-            model = {'api': canon_model_api(m['api'])}
+            model = {'api': by_name(canon_model_api(m['api']))}
         elif 'error' in m:
             model = {'error': True}
         else:
@@ -1795,7 +1910,7 @@ def replay(ck, path):
             print(' backend saw     : %s' % _brief(canon_api(snapshot(res[1]))))
         else:
             print(' exit            : %s %s' % (res[1], res[2].strip()[-200:]))
-        m = ck.driver([{'op': 'cli.prune', 'api': env.snap0, 'opts': opts}])[0]
+        m = ck.driver([{'op': 'cli.prune', 'api': env.snap0, 'opts': model_opts(opts)}])[0]
         print(' model           : %s' % _brief(m))
         for what, sig, detail in problems:
             print(' FAILS           : %s %s %s' % (what, sig, _brief(detail)))
